@@ -49,6 +49,7 @@ HPS = [  # bs, epochs, steps, drop
     (2, 1, 0, False), (3, None, 2, True)]
 SIZES = [[], [0], [0, 0], [3], [0, 4], [1, 2, 3], [5, 0, 2, 9], [4, 4, 4, 4, 4, 4], [7, 1, 0, 3, 6, 2], [2, 2], [9, 8, 1], [1, 0, 0, 1]]
 BACKENDS = ['jit', 'debug', 'pmap', 'pmap3']
+ALL_BACKENDS = BACKENDS + ['nojit']     # nojit: the jit backend run under jax.disable_jit()
 
 
 def _hp(t, seed):
@@ -71,7 +72,9 @@ def _case(rng, copt, sopt, hp, sizes, nrounds, backend, noise):
   perm = list(range(len(rounds[0])))
   rng.shuffle(perm)
   return {'copt': copt, 'sopt': sopt, 'hp': hp, 'noise': noise, 'backend': backend,
-          'init': [rng.randint(-4, 4) / 4 for _ in range(fs.D)], 'pop': pop, 'rounds': rounds, 'perm': perm}
+          'init': [rng.randint(-4, 4) / 4 for _ in range(fs.D)], 'pop': pop, 'rounds': rounds, 'perm': perm,
+          'forms': fs.gen_forms(rng) if rng.random() < 0.5 else dict(fs.FORMS0),
+          'xdtype': 'float16' if rng.random() < 0.1 else 'float32', 'fresh': False}
 
 
 def generate(tier, rng):
@@ -81,6 +84,14 @@ def generate(tier, rng):
     yield _case(rng, SGD(0.125), SGD(1.0), _hp(HPS[0], 1), [0, 0], 2, b, True)
     yield _case(rng, SGD(0.25, 0.5), SGD(1.0, 0.5), _hp(HPS[0], 2), [5, 0, 2, 9], 3, b, True)
   yield _case(rng, SGD(0.125), SGD(1.0), _hp(HPS[0], 1), [], 1, 'jit', True)
+  # WAVE3 item 2: falsy-but-valid values: seed 0, client id 0 as int, learning rate 0.0, momentum 0.0 (not None),
+  # sizes one below / equal to / one above the batch size, weights exactly 0 and 1; item 7: jit backend under disable_jit
+  for forms in ({'clients': 'tuple', 'ids': 'int', 'init': 'numpy', 'key': 'numpy'}, {'clients': 'list', 'ids': 'str', 'init': 'jax', 'key': 'jax'}):
+    for b in ('jit', 'nojit', 'pmap3'):
+      yield dict(_case(rng, SGD(0.125, 0.0), SGD(1.0, 0.0), _hp((3, 2, None, False), 0), [2, 3, 4, 0, 1], 2, b, True), forms=forms)
+  yield dict(_case(rng, SGD(0.0), SGD(1.0), _hp(HPS[0], 0), [3, 2], 2, 'jit', True))
+  yield dict(_case(rng, SGD(0.125), SGD(0.0, 0.5), _hp(HPS[0], 0), [3, 2], 3, 'jit', True), xdtype='float16')
+  yield dict(_case(rng, SGD(0.25, 0.5), SGD(0.5, 0.5), _hp((2, None, 3, False), 0), [1, 2, 3], 2, 'debug', True), fresh=True)
   yield _case(rng, SGD(0.125), SGD(0.5), _hp(HPS[5], 1), [0, 3, 0], 2, 'jit', True)
   yield _case(rng, SGD(0.125), SGD(1.0), _hp(HPS[8], 4), [2, 7, 4], 2, 'jit', False)
   yield _case(rng, SGD(0.125), ADAM(0.125), _hp(HPS[1], 4), [4, 0, 6], 3, 'jit', True)
@@ -100,8 +111,8 @@ def generate(tier, rng):
   # federated_averaging is built many times per process from the SAME grad_fn object (fedsim.shared_grad) with different
   # optimizers / hparams; re-run the first-built algorithm objects after all the others exist (hidden shared state)
   for b in BACKENDS[:2]:
-    yield _case(rng, SGD(0.125), SGD(1.0), _hp(HPS[0], 1), [3, 1, 4], 2, b, True)
-    yield _case(rng, SGD(0.25, 0.5), SGD(1.0, 0.5), _hp(HPS[0], 2), [2, 6], 2, b, True)
+    yield dict(_case(rng, SGD(0.125), SGD(1.0), _hp(HPS[0], 1), [3, 1, 4], 2, b, True), fresh=True)
+    yield dict(_case(rng, SGD(0.25, 0.5), SGD(1.0, 0.5), _hp(HPS[0], 2), [2, 6], 2, b, True), fresh=True)
 
 
 # ----------------------------------------------------------------------------
@@ -110,55 +121,91 @@ def generate(tier, rng):
 _ALGS = {}
 
 
-def _alg(case):
-  """One algorithm object (compiled once) per configuration and backend."""
+def _alg(case, fresh=False):
+  """One algorithm object (compiled once) per configuration and backend; fresh=True builds a new, uncached one."""
   from fedjax.algorithms import fed_avg
   from fedjax.core import for_each_client as fec
-  import fedjax
-  key = json.dumps([case['copt'], case['sopt'], case['hp'], case['noise'], case['backend']], sort_keys=True)
-  if key not in _ALGS:
+  backend = {'pmap3': 'pmap', 'nojit': 'jit'}.get(case['backend'], case['backend'])
+  key = json.dumps([case['copt'], case['sopt'], case['hp'], case['noise'], backend], sort_keys=True)
+  if fresh or key not in _ALGS:
     if len(_ALGS) > 400:
       _ALGS.clear()
     rec = fs.Recorder(fs.make_optimizer(case['sopt']))
     grad_fn = fs.shared_grad(case['noise'])   # the SAME grad_fn object for every algorithm instance of the process
-    backend = 'pmap' if case['backend'] == 'pmap3' else case['backend']
     with fec.for_each_client_backend(backend):
       alg = fed_avg.federated_averaging(grad_fn, fs.make_optimizer(case['copt']), rec.optimizer, fs.hparams(case['hp']))
+    if fresh:
+      return alg, rec
     _ALGS[key] = (alg, rec)
   return _ALGS[key]
 
 
-def _apply(alg, rec, state, cds, rnd):
+def _apply(alg, rec, state, cds, rnd, case, watch=None):
+  import contextlib
   import jax
+  forms = case.get('forms', fs.FORMS0)
   rec.calls.clear()
-  clients = [(fs.cid_bytes(c), cds[c], jax.random.PRNGKey(s)) for c, s in rnd]
-  state, diag = alg.apply(state, clients)
+  clients = [(fs.cid_form(c, forms['ids']), cds[c], fs.make_key(s, forms['key'])) for c, s in rnd]
+  if forms['clients'] == 'tuple':
+    clients = tuple(clients)
+  if watch is not None:
+    watch.watch_clients('clients', clients)
+    for cid, _, k in clients:
+      watch.watch(f'key of {cid!r}', k)
+  ctx = jax.disable_jit() if case['backend'] == 'nojit' else contextlib.nullcontext()
+  with ctx:
+    state, diag = alg.apply(state, clients)
   jax.block_until_ready(state.params)
   return state, {'params': fs.flat(state.params), 'trace': fs.trace_of(state.opt_state),
-                 'diag': [[k.decode(), float(v['delta_l2_norm'])] for k, v in diag.items()],
+                 'diag': [[fs.cid_back(k), float(v['delta_l2_norm'])] for k, v in diag.items()],
+                 'diag_key_types': sorted({type(k).__name__ for k in diag}),
                  'diag_extra_keys': sorted({kk for v in diag.values() for kk in v} - {'delta_l2_norm'}),
                  'calls': list(rec.calls)}
 
 
 def run_local(case):
-  import jax.numpy as jnp
   alg, rec = _alg(case)
-  cds = {c: fs.client_dataset(d) for c, d in case['pop'].items()}
-  obs = {'err': None, 'rounds': [], 'perm': None, 'nozero': None}
+  forms = case.get('forms', fs.FORMS0)
+  cds = {c: fs.client_dataset(d, case.get('xdtype', 'float32')) for c, d in case['pop'].items()}
+  obs = {'err': None, 'rounds': [], 'perm': None, 'nozero': None, 'reinit': None, 'fresh': None, 'caller': []}
   obs['streams'] = {c: fs.record_stream(cds[c], case['hp']) for c in sorted(cds)}
   obs['nus'] = [[fs.nu_stream(s, len(obs['streams'][c])) if case['noise'] else [0.0] * len(obs['streams'][c])
                  for c, s in rnd] for rnd in case['rounds']]
+  watch = fs.CallerData()
   try:
-    init = alg.init({'w': jnp.asarray(case['init'], dtype=jnp.float32)})
+    w0 = fs.make_params(case['init'], forms['init'])
+    watch.watch('initial params', w0['w'])
+    for c, d in cds.items():
+      for f, a in d.raw_examples.items():
+        watch.watch(f'dataset {c}.{f}', a)
+    init = alg.init(w0)
     state = init
+    kept = []
     for rnd in case['rounds']:
-      state, o = _apply(alg, rec, state, cds, rnd)
+      watch.watch('input server_state.params', state.params['w'])
+      state, o = _apply(alg, rec, state, cds, rnd, case, watch)
+      kept.append((state, o['params']))
       obs['rounds'].append(o)
     r0 = case['rounds'][0]
-    _, o = _apply(alg, rec, init, cds, [r0[i] for i in case['perm']])
+    _, o = _apply(alg, rec, init, cds, [r0[i] for i in case['perm']], case)
     obs['perm'] = {'params': o['params'], 'diag': o['diag']}
-    _, o = _apply(alg, rec, init, cds, [cs for cs in r0 if len(case['pop'][cs[0]]['y']) > 0])
+    _, o = _apply(alg, rec, init, cds, [cs for cs in r0 if len(case['pop'][cs[0]]['y']) > 0], case)
     obs['nozero'] = {'params': o['params']}
+    # init() again after the applies, on the same object
+    _, o = _apply(alg, rec, alg.init(fs.make_params(case['init'], forms['init'])), cds, r0, case)
+    obs['reinit'] = {'params': o['params'], 'trace': o['trace']}
+    if case.get('fresh'):            # a freshly built algorithm object must agree with the long-lived one
+      alg2, rec2 = _alg(case, fresh=True)
+      _, o = _apply(alg2, rec2, alg2.init(fs.make_params(case['init'], forms['init'])), cds, r0, case)
+      obs['fresh'] = {'params': o['params'], 'trace': o['trace']}
+    # results kept by the caller are still what they were; inputs are untouched
+    for r, (st, params) in enumerate(kept):
+      try:
+        if fs.flat(st.params) != params:
+          obs['caller'].append(f'state returned by round {r} changed after later calls')
+      except Exception as ex:
+        obs['caller'].append(f'state returned by round {r} unusable: {type(ex).__name__}')
+    obs['caller'] += watch.check()
   except Exception as ex:  # mapped to a small enum; the oracle reports it
     obs['err'] = fs.err_name(ex)
   return obs
@@ -270,7 +317,7 @@ def oracle(case, obs):
       out.append(('server-optimizer', f'round {r}: momentum trace {o["trace"]} != {ref_srv.t.tolist()}'))
     # diagnostics: exactly one entry per participating client
     dk = [k for k, _ in o['diag']]
-    if sorted(dk) != sorted(fs.cid_bytes(c).decode() for c in ids) or len(dk) != len(ids):
+    if sorted(dk) != sorted(fs.cid_bytes(c).decode() for c in ids) or len(dk) != len(ids) or o.get('diag_extra_keys'):
       out.append(('diagnostics-keys', f'round {r}: diagnostics for {dk}, clients {ids}'))
     else:
       norm = {fs.cid_bytes(c).decode(): float(np.sqrt(np.sum(dl * dl))) for c, dl in zip(ids, deltas)}
@@ -284,8 +331,18 @@ def oracle(case, obs):
         out.append(('empty-round', f'round {r}: no examples, plain SGD, params changed'))
     prev_p = np.array(o['params'], dtype=np.float64)
     prev_t = o['trace']
+  for what in obs.get('caller', []):
+    out.append(('caller-data', what))
   if len(obs['rounds']) == len(case['rounds']) and obs['rounds']:
     p0 = obs['rounds'][0]['params']
+    want_type = {'bytes': 'bytes', 'str': 'str', 'int': 'int'}[case.get('forms', fs.FORMS0)['ids']]
+    if any(o['diag_key_types'] not in ([], [want_type]) for o in obs['rounds']):
+      out.append(('diagnostics-keys', 'diagnostics are not keyed by the client ids as given'))
+    for k in ('reinit', 'fresh'):
+      if k == 'fresh' and not case.get('fresh'):
+        continue
+      if obs.get(k) is None or not fs.close(obs[k]['params'], p0, 1e-7) or not fs.close(obs[k]['trace'], obs['rounds'][0]['trace'], 1e-7):
+        out.append((k + '-differs', f'round 0 from init() {"on a freshly built object" if k == "fresh" else "called again"}: {obs.get(k)} vs {p0}'))
     if obs['perm'] is None or not fs.close(obs['perm']['params'], p0, tol):
       out.append(('order-dependent', f'round 0 with clients reordered: {obs["perm"]} vs {p0}'))
     elif sorted(map(tuple, obs['perm']['diag'])) and sorted(k for k, _ in obs['perm']['diag']) != sorted(k for k, _ in obs['rounds'][0]['diag']):
@@ -333,7 +390,9 @@ def nontrivial(case, obs):
 
 def describe(case, obs):
   tot = [sum(len(case['pop'][c]['y']) for c, _ in rnd) for rnd in case['rounds']]
-  return {'backend': case['backend'], 'rounds': len(case['rounds']), 'clients_round0': len(case['rounds'][0]),
+  f = case.get('forms', fs.FORMS0)
+  return {'backend': case['backend'], 'rounds': len(case['rounds']), 'forms': f"{f['clients']}/{f['ids']}/{f['init']}/{f['key']}",
+          'xdtype': case.get('xdtype', 'float32'), 'hparams_seed0': case['hp']['seed'] == 0, 'clients_round0': len(case['rounds'][0]),
           'client_opt': case['copt']['kind'] + ('+mom' if case['copt'].get('mom') else '') + ('+nest' if case['copt'].get('nest') else ''),
           'server_opt': case['sopt']['kind'] + ('+mom' if case['sopt'].get('mom') else '') + ('+nest' if case['sopt'].get('nest') else ''),
           'batching': f'bs={case["hp"]["bs"]},ep={case["hp"]["epochs"]},st={case["hp"]["steps"]},drop={case["hp"]["drop"]}',
@@ -360,6 +419,10 @@ def shrink(case):
     yield dict(case, noise=False)
   if case['backend'] != 'jit':
     yield dict(case, backend='jit')
+  if case.get('forms', fs.FORMS0) != fs.FORMS0:
+    yield dict(case, forms=dict(fs.FORMS0))
+  if case.get('xdtype', 'float32') != 'float32':
+    yield dict(case, xdtype='float32')
 
 
 def hang_key(case):
